@@ -118,7 +118,7 @@ def _case(rng, cls, AX, AY, iso=None, nseeds=2):
 
 
 def generate(rng, tier):
-    n_cases = 450 if tier == "quick" else 15000
+    n_cases = 450 if tier == "quick" else 10000
     cases = []
     for _ in range(n_cases):
         r = rng.random()
@@ -148,7 +148,7 @@ def generate(rng, tier):
             cases.append(_case(rng, cls, _graph(rng, kx, rng.randint(1, 7)), _graph(rng, ky, rng.randint(1, 7))))
     # larger relabelled copies of sparse graphs: equal sizes and diameters, many distinct row distributions, so the
     # row test of Theorem B runs through several rows of K and all rows of DY; the true distance is 0 by construction
-    for _ in range(300 if tier == "quick" else 6000):
+    for _ in range(700 if tier == "quick" else 10000):
         n = rng.randint(5, 14)
         AX = _rich(rng, n)
         p = _perm(rng, n)
@@ -156,7 +156,7 @@ def generate(rng, tier):
                       "fmt": rng.choice(["csr", "dense", "list"])})
     # lower bound only, model vs implementation exactly, on pairs of 6-10 vertices with several distinct row
     # distributions (the pure model cannot share state between feasibility checks)
-    for _ in range(300 if tier == "quick" else 6000):
+    for _ in range(500 if tier == "quick" else 6000):
         n = rng.randint(6, 10)
         m = n if rng.random() < 0.7 else rng.randint(6, 10)
         cases.append({"cls": "lb_only", "kind": "lb", "AX": _rich(rng, n), "AY": _rich(rng, m), "iso": None,
@@ -229,6 +229,19 @@ def shrink_candidates(c):
                 if c[key][k] > 0:
                     d = dict(c); d[key] = list(c[key]); d[key][k] -= 1; yield d
         return
+    p = c.get("iso")
+    if p is not None and len(c["AX"]) == len(c["AY"]) and len(p) == len(c["AX"]) > 1:
+        # keep the pair isomorphic: drop vertex v of X together with its image p[v] in Y
+        n = len(p)
+        for v in range(n):
+            kx = [i for i in range(n) if i != v]
+            ky = [i for i in range(n) if i != p[v]]
+            BX = [[c["AX"][i][j] for j in kx] for i in kx]
+            BY = [[c["AY"][i][j] for j in ky] for i in ky]
+            if _connected(BX) and _connected(BY):
+                d = dict(c); d["AX"], d["AY"] = BX, BY
+                d["iso"] = [ky.index(p[i]) for i in kx]
+                yield d
     for key in ("AX", "AY"):
         A = c[key]
         n = len(A)
@@ -239,10 +252,10 @@ def shrink_candidates(c):
                 if _connected(B):
                     d = dict(c); d[key] = B; d["iso"] = None
                     yield d
-    if len(c["seeds"]) > 1:
+    if len(c.get("seeds", [])) > 1:
         for s in c["seeds"]:
             d = dict(c); d["seeds"] = [s]; yield d
-    if c["fmt"] != "list":
+    if c.get("fmt", "list") != "list":
         d = dict(c); d["fmt"] = "list"; yield d
 
 
@@ -313,15 +326,22 @@ def impl_run(cases):
             cur[0] = rec
             r = o_fumd(DA, DB, *a, **k)
             cur[0] = None
-            rec["res"] = int(r)
-            calls.append(rec)
+            try:
+                rec["res"] = int(r)
+                calls.append(rec)
+            except Exception:           # the helper's interface changed: no per-call log, predicate still applies
+                pass
             return r
 
         def cm(DA, DB, pi):
-            images, dist = o_cm(DA, DB, pi)
-            if cur[0] is not None:
-                cur[0]["cm"].append({"pi": [int(v) for v in pi], "images": [int(v) for v in images], "dist": int(dist)})
-            return images, dist
+            res = o_cm(DA, DB, pi)
+            try:
+                images, dist = res
+                if cur[0] is not None:
+                    cur[0]["cm"].append({"pi": [int(v) for v in pi], "images": [int(v) for v in images], "dist": int(dist)})
+            except Exception:
+                pass
+            return res
         np.random.permutation, np.random.choice = perm, choice
         mod.find_ub_of_min_distortion, mod.construct_mapping = fumd, cm
         try:
